@@ -13,7 +13,7 @@ for S in "$@"; do
   git -C "$C/repo" checkout -q --detach "$(git -C /repo rev-parse HEAD)"; git -C "$C/repo" checkout -q -- .; git -C "$C/repo" clean -fdq
   rm -rf "$C/demo"; cp -r "$S/demo" "$C/demo"
   # point the demo at the scratch worktree
-  grep -rl "/tmp/wt-c[0-9][0-9]" "$C/demo" --include=Cargo.toml --include='*.rs' --include='*.sh' 2>/dev/null | xargs -r sed -i -E "s#/tmp/wt-c[0-9]+#$C/repo#g"
+  grep -rl "/tmp/wt[0-9]*-c[0-9][0-9]" "$C/demo" --include=Cargo.toml --include='*.rs' --include='*.sh' 2>/dev/null | xargs -r sed -i -E "s#/tmp/wt[0-9]*-c[0-9]+#$C/repo#g"
   [ -f "$C/demo/Cargo.lock" ] || cp /tmp/buildkit/Cargo.lock "$C/demo/Cargo.lock"
   bin=$(grep -m1 -E '^name *= *"' "$C/demo/Cargo.toml" | sed -E 's/.*"(.*)".*/\1/')
   run() { ( cd "$C/demo" && CARGO_NET_OFFLINE=true RUSTFLAGS="--cfg concordium_base_verif" timeout 2400 cargo build --offline --release --target-dir "$C/target" >"$C/build.log" 2>&1 && timeout 600 "$C/target/release/$bin" >"$C/run.log" 2>&1 ); echo $?; }
